@@ -1694,6 +1694,8 @@ var opForward = []struct{ fn, callee string }{
 	{fCli + "WriteAt", fCli + "operation"}, {fCli + "ReadAt", fCli + "operation"}, {fCli + "Sync", fCli + "operation"}, {fCli + "Unmap", fCli + "operation"}, {fCli + "Ping", fCli + "operation"},
 	{fSrv + "WriteAt", fRep + "WriteAt"}, {fSrv + "ReadAt", fRep + "ReadAt"}, {fSrv + "Sync", fRep + "Sync"}, {fSrv + "Unmap", fRep + "Unmap"},
 	{fRep + "WriteAt", "invoke:WriteAt"}, {fRep + "ReadAt", "invoke:ReadAt"}, {fRep + "Sync", "invoke:Sync"}, {fRep + "Unmap", "invoke:Unmap"},
+	// the lowest layer: the chain's head file
+	{"(*replica.diffDisk).Sync", "syscall.Fsync"}, {"(*replica.diffDisk).fullWriteAt", "invoke:WriteAt"}, {"(*replica.diffDisk).readModifyWrite", "(*replica.diffDisk).fullWriteAt"},
 	// protocol reads that must not be answered from a cache: the answer changes behind the caller's back
 	{"(*backend/remote.Remote).info", "(*net/http.Client).Do"},
 	{"(*backend/dynamic.Factory).VerifyReplicaAlive", "invoke:VerifyReplicaAlive"},
@@ -1713,13 +1715,15 @@ var opForwardAtoms = map[string][]string{
 	fRep + "WriteAt": {`+"quorum" -$0.ReplicaType ==0`},
 	fRep + "Sync":    {`+"quorum" -$0.ReplicaType ==0`},
 	fRep + "Unmap":   {`+"quorum" -$0.ReplicaType ==0`},
+	// an empty head or tail piece of an unaligned request
+	"(*replica.diffDisk).readModifyWrite": {"+len($1) ==0"},
 	// the fail-over loop: with an empty reader list (excluded by backendsAvailable) nothing is read
 	fRepl + "ReadAt": {"+* -len($0.readers) >=0"},
 }
 
 func ruleOpForward(rule string) ruleFn {
 	return func(c *Ctx) {
-		c.Doc(rule, "every layer of the data path (Controller, replicator, rpc.Client, replica.Server, Replica: WriteAt / ReadAt / Sync / Unmap / Ping) reports success only on paths on which the operation was handed to the layer below: there is no fast path that acknowledges a flush, a write or a discard without executing it (a 'nothing changed since the last sync' flag is not maintained on the degraded-success paths, and it by-passes the read-only gate and the sticky connection error)")
+		c.Doc(rule, "every layer of the data path (Controller, replicator, rpc.Client, replica.Server, Replica, diffDisk: WriteAt / ReadAt / Sync / Unmap / Ping) reports success only on paths on which the operation was handed to the layer below: there is no fast path that acknowledges a flush, a write or a discard without executing it (a 'nothing changed since the last sync' flag is not maintained on the degraded-success paths, and it by-passes the read-only gate and the sticky connection error)")
 		n := 0
 		for _, of := range opForward {
 			fn := c.P.Fn(of.fn)
@@ -1760,7 +1764,7 @@ func ruleOpForward(rule string) ruleFn {
 			}
 			c.Guard(rule, fn, sites, "report success", nil, need)
 		}
-		if n < 16 {
+		if n < 19 {
 			c.Undecided(rule, "vacuity-floor", "", fmt.Sprintf("only %d data-path functions found", n))
 		}
 	}
